@@ -4,9 +4,12 @@ pub mod c01;
 pub mod c02;
 pub mod c03;
 pub mod c04;
+pub mod c05;
 pub mod c06;
 pub mod c07;
+pub mod c08;
 pub mod c12;
+pub mod c16;
 
 use crate::engine::{run, Opts};
 
@@ -16,9 +19,12 @@ pub fn dispatch(id: &str, opts: &Opts) -> i32 {
         "C02" => run(&c02::C02, opts),
         "C03" => run(&c03::C03, opts),
         "C04" => run(&c04::C04, opts),
+        "C05" => run(&c05::C05, opts),
         "C06" => run(&c06::C06, opts),
         "C07" => run(&c07::C07, opts),
+        "C08" => run(&c08::C08, opts),
         "C12" => run(&c12::C12, opts),
+        "C16" => run(&c16::C16, opts),
         _ => {
             eprintln!("unknown property {}", id);
             2
